@@ -5,7 +5,7 @@ from ..fdai import EnumV, AggV, K, SymV, RefV, Cell, Loc, TOP, load, snapshot
 from . import dispatch as D, contrib as CB
 
 LEVEL = "other"
-TECHNIQUE = "op table of the ArrayVec formatter (only non-panicking try_* container calls, every failure mapped to -225), sibling agreement of the Vec and ArrayVec formatter impls, no-dropped-write discipline over every fallible formatter call, response-unit error latch, and a build-graph witness for 'no heap': the no-alloc configuration's resolved crate graph contains neither alloc nor std, the items that exist only with alloc are an explicit allow-list, every other body is identical in both configurations, and no body outside the allow-list calls into alloc; refused-write sequences over [header] data* finish (every position of the refused write ends in exactly that failure); writers hand a refused write back as it is; writers' stack buffers hold every value of their type; whole-message tables (sa/rules/msgtable.py): Node::run folded end to end on concrete messages against a concrete tree with the real tokenizer, dispatcher, Parameters, ResponseUnit and formatter impl analysed in place and scripted handlers, compared with a reference execution written from SCPI-99 6.2.4 / IEEE 488.2 7-8 - the framing messages against ArrayVec<u8, N> for N at and around every size of the expected response: identical bytes when they fit, OutOfMemory from the unit whose write does not fit; finish() returns the stored outcome and leaves it stored (8 unit states)"
+TECHNIQUE = "op table of the ArrayVec formatter (only non-panicking try_* container calls, every failure mapped to -225), sibling agreement of the Vec and ArrayVec formatter impls, no-dropped-write discipline over every fallible formatter call, response-unit error latch, and a build-graph witness for 'no heap': the no-alloc configuration's resolved crate graph contains neither alloc nor std, the items that exist only with alloc are an explicit allow-list, every other body is identical in both configurations, and no body outside the allow-list calls into alloc; refused-write sequences over [header] data* finish (every position of the refused write ends in exactly that failure); writers hand a refused write back as it is; writers' stack buffers hold every value of their type; whole-message tables (sa/rules/msgtable.py): Node::run folded end to end on concrete messages against a concrete tree with the real tokenizer, dispatcher, Parameters, ResponseUnit and formatter impl analysed in place and scripted handlers, compared with a reference execution written from SCPI-99 6.2.4 / IEEE 488.2 7-8 - the framing messages against ArrayVec<u8, N> for N at and around every size of the expected response: identical bytes when they fit, OutOfMemory from the unit whose write does not fit; finish() returns the stored outcome and leaves it stored (8 unit states); the panic audit of C01 run on the response modules (R11.10)"
 LEVEL_TEXT = "Capacity: the fixed-capacity formatter's two push primitives are enumerated path by path (try_extend_from_slice / try_push, Err mapped to OutOfMemory, no panicking container call anywhere in the impl) and every call site whose Result carries a write failure is checked to propagate it, so exhaustion at any write surfaces as -225. Bytes: the two formatter impls agree on every method other than the two primitives. Heap: code that cannot name the allocator cannot call it - the no-alloc build of scpi (and scpi-contrib) type-checks with a crate graph without alloc/std, and the alloc-only items are exactly the Vec-based conveniences."
 LEVEL_NOTE = "Not decided: allocation/capacity behaviour of user handlers; panics inside arrayvec/lexical-core when used within their contracts (C01's trusted base). Trusted: rustc MIR and crate-graph resolution, cargo feature resolution of the analysed configurations."
 
